@@ -966,11 +966,11 @@ def _e_task_cancel(ctx):
     node = fi.node
     wrapped = None
     for c, b in regs:
-        f = b["f"]
         cn = _n1(ctx, cfg, c, "on_interest_end call")
+        f, fp = _value_at(cfg, fi.node, b["f"], cn)
         node = c
-        if isinstance(f, ast.Attribute) and f.attr == "cancel":
-            tv, tp = _value_at(cfg, fi.node, f.value, cn)
+        if not fp and isinstance(f, ast.Attribute) and f.attr == "cancel":
+            tv, tp = _value_at(cfg, fi.node, f.value, _rn(cfg, f)[0] if _rn(cfg, f) else cn)
             if not tp and isinstance(tv, ast.Call) and isinstance(tv.func, ast.Attribute) and tv.func.attr in ("create_task", "ensure_future") and tv.args and isinstance(tv.args[0], ast.Call):
                 w = _nested_callable(fi.node, tv.args[0].func)
                 if w is not None and any(isinstance(a, ast.Await) and isinstance(a.value, ast.Name) and a.value.id == p[1] and _closure_ref(w, p[1], p[1]) for a in walk_no_nested(w)):
@@ -1176,3 +1176,60 @@ def f(ctx):
             ctx.need(False, "notification argument is not a local")
     # a non-None triggered response must also be possible: the render is not unconditional w.r.t. the read
     ctx.ob("a triggered response is passed on without re-rendering", any(A.nid in cfg.reach({rd}, avoid=set(rstmts)) for A in inloop), fi, reads[0])
+
+
+# ---------------------------------------------------------------------------
+# seeded faults (sensitivity self-test)
+F_IF = "aiocoap/interfaces.py"
+F_RES = "aiocoap/resource.py"
+F_PROTO = "aiocoap/protocol.py"
+F_TM = "aiocoap/tokenmanager.py"
+F_MM = "aiocoap/messagemanager.py"
+F_PIPE = "aiocoap/pipe.py"
+
+R.seed("C08.a", F_IF, "                    next_observation_number += 1\n", "                    next_observation_number += 0\n", "Observe value never rises")
+R.seed("C08.a", F_IF, "                    next_observation_number += 1\n", "                    next_observation_number -= 1\n", "Observe value falls")
+R.seed("C08.a", F_IF, "                    response.opt.observe = next_observation_number\n", "", "notifications without Observe option")
+R.seed("C08.a", F_IF, "            first_response.opt.observe = next_observation_number = 0\n", "            next_observation_number = 0\n", "initial response without Observe option")
+R.seed("C08.a", F_IF, "            first_response.opt.observe = next_observation_number = 0\n", "            first_response.opt.observe = 5\n            next_observation_number = 0\n", "first notification (1) below the initial value (5)")
+R.seed("C08.a", F_IF, "                    next_observation_number += 1\n                    response.opt.observe = next_observation_number\n",
+       "                    response.opt.observe = next_observation_number\n                    next_observation_number += 1\n", "first notification repeats the initial value")
+R.seed("C08.a", F_IF, "                if not is_last:\n                    next_observation_number += 1", "                if is_last:\n                    next_observation_number += 1", "Observe stored only on the final notification")
+R.seed("C08.b", F_IF, "        finally:\n            servobs._cancellation_callback()", "        except Exception:\n            servobs._cancellation_callback()\n            raise", "callback moved from finally into except: missed on return and on task cancellation")
+R.seed("C08.b", F_IF, "        try:\n            first_response = await self.render(pipe.request)\n\n            if (", "        first_response = await self.render(pipe.request)\n        try:\n            if (", "first render outside the try")
+R.seed("C08.b", F_IF, "                if is_last:\n                    return\n", "                if is_last:\n                    servobs._cancellation_callback()\n                    return\n", "callback runs twice")
+R.seed("C08.b", F_PROTO, "        self._cancellation_callback = cancellation_callback\n", "        self._cancellation_callback = lambda: None\n", "accept() drops the resource's callback")
+R.seed("C08.c", F_RES, "            self._observations.remove(serverobservation)\n            self.update_observation_count(len(self._observations))\n", "            self._observations.remove(serverobservation)\n", "count not updated on cancellation")
+R.seed("C08.c", F_RES, "        serverobservation.accept(_cancel)\n        self.update_observation_count(len(self._observations))\n", "        serverobservation.accept(_cancel)\n", "count not updated on registration")
+R.seed("C08.c", F_RES, "        self._observations.add(serverobservation)\n", "        self._observations.add(request)\n", "object added differs from the one removed")
+R.seed("C08.c", F_RES, "            self._observations.remove(serverobservation)\n            self.update_observation_count(len(self._observations))\n",
+       "            self.update_observation_count(len(self._observations))\n            self._observations.remove(serverobservation)\n", "count reported before the removal")
+R.seed("C08.c", F_RES, "        for o in self._observations:\n            o.trigger(response)\n", "        for o in self._observations:\n            o.trigger(response)\n        self._observations.clear()\n", "foreign writer of _observations")
+R.seed("C08.c", F_RES, "            o.trigger(response)\n", "            o.trigger()\n", "ready-made notification dropped")
+R.seed("C08.d", F_IF, "                is_last = servobs._late_deregister or not response.code.is_successful()", "                is_last = servobs._late_deregister", "unsuccessful notification does not end the observation")
+R.seed("C08.d", F_IF, "                is_last = servobs._late_deregister or not response.code.is_successful()", "                is_last = not response.code.is_successful()", "trigger(is_last=True) ignored")
+R.seed("C08.d", F_IF, "                or servobs._early_deregister\n", "", "early deregistration ignored")
+R.seed("C08.d", F_IF, "                not servobs._accepted\n                or servobs._early_deregister", "                servobs._early_deregister", "unaccepted observation kept open")
+R.seed("C08.d", F_IF, "                or not first_response.code.is_successful()\n", "", "error response opens an observation")
+R.seed("C08.d", F_IF, "                if is_last:\n                    return\n", "                if is_last:\n                    continue\n", "loop goes on after the final notification")
+R.seed("C08.d", F_IF, "                pipe.add_response(response, is_last=is_last)\n", "                pipe.add_response(response, is_last=False)\n", "notifications never final")
+R.seed("C08.e", F_TM, "            (pipe, stop) = self.incoming_requests.pop(key)\n            stop()\n", "            (pipe, stop) = self.incoming_requests.pop(key)\n", "old observation not stopped on override")
+R.seed("C08.e", F_TM, "                    # in on the same token)\n                    stop,\n", "                    # in on the same token)\n                    lambda: None,\n", "Reset no longer reaches the observation")
+R.seed("C08.e", F_TM, "                stoppers.append(stopper)\n", "                pass\n", "transport errors do not stop observations")
+R.seed("C08.e", F_TM, "            if remote == _r:\n                stoppers.append(stopper)", "            if remote is _r:\n                stoppers.append(stopper)", "identity instead of equality of remotes")
+R.seed("C08.e", F_TM, "                stoppers.append(stopper)\n", "                stopper()\n", "dict modified while iterated")
+R.seed("C08.e", F_TM, "            # could raise in the task.)\n            stop()\n", "            # could raise in the task.)\n", "shutdown does not stop observations")
+R.seed("C08.e", F_TM, "        self.incoming_requests[key] = (pipe, stop)\n", "        self.incoming_requests[(request.token,)] = (pipe, stop)\n", "registered under the token only")
+R.seed("C08.e", F_PIPE, "    pipe.on_interest_end(task.cancel)\n", "", "render task survives loss of interest")
+R.seed("C08.e", F_PIPE, "    old_pr.on_interest_end(remove_interest)\n", "", "loss of interest not forwarded to the render task's pipe")
+R.seed("C08.e", F_PIPE, "        ]\n        if not self._any_interest():\n            self._end()\n", "        ]\n", "unregistering the last handler does not end the pipe")
+R.seed("C08.e", F_MM, "        if message.mtype is RST:\n            messageerror_monitor()\n", "", "Reset does not fire the monitor")
+R.seed("C08.e", F_MM, "            self._add_exchange(message, messageerror_monitor)\n", "            self._add_exchange(message, lambda: None)\n", "monitor lost on the way to the exchange table")
+R.seed("C08.e", F_MM, "            self._active_exchanges[key] = (messageerror_monitor, next_retransmission)", "            self._active_exchanges[key] = (lambda: None, next_retransmission)", "monitor lost after the first retransmission")
+R.seed("C08.f", F_PROTO, "        if self._trigger.done():\n            # we don't care whether we overwrite anything, this is a lossy queue as observe is lossy\n            self._trigger = asyncio.get_running_loop().create_future()\n", "", "second trigger before consumption raises InvalidStateError")
+R.seed("C08.f", F_PROTO, "        if is_last:\n            self._late_deregister = True\n", "", "is_last not recorded")
+R.seed("C08.f", F_PROTO, "        self._trigger.set_result(response)\n", "        self._trigger.set_result(None)\n", "ready-made notification dropped")
+R.seed("C08.f", F_IF, "                servobs._trigger = asyncio.get_running_loop().create_future()\n\n                if response is None:\n                    response = await self.render(pipe.request)\n",
+       "\n                if response is None:\n                    response = await self.render(pipe.request)\n                servobs._trigger = asyncio.get_running_loop().create_future()\n", "trigger during rendering is lost")
+R.seed("C08.f", F_IF, "                if response is None:\n                    response = await self.render(pipe.request)\n", "                response = await self.render(pipe.request)\n", "triggered response always replaced by a rendering")
+R.seed("C08.f", F_IF, "                await servobs._trigger\n", "                await asyncio.sleep(0)\n", "loop does not wait for a trigger")
